@@ -1504,7 +1504,9 @@ fn parent(a: Args) {
                         let replay = format!("#fault {v_use} {}\n{}", f.get(2).unwrap_or(&""), text);
                         *dist.entry(format!("fail:{}", f[0])).or_default() += 1;
                         if f[0].starts_with("C05:hang") { hang_failures += 1; }
-                        if failures.iter().filter(|x| x.sig == f[0]).count() < 3 { failures.push(Failure { sig: f[0].to_string(), desc: format!("[{name} {v_use}] {}", f[1]), case: replay }); }
+                        // value / state-invariant failures are listed more generously: the plugin attributes each of them (known finding F70 or not)
+                        let cap = if f[0].starts_with("C05:value") || f[0].starts_with("C05:state-invariant") { 200 } else { 3 };
+                        if failures.iter().filter(|x| x.sig == f[0]).count() < cap { failures.push(Failure { sig: f[0].to_string(), desc: format!("[{name} {v_use}] {}", f[1]), case: replay }); }
                     }
                     "I" => {
                         // one block per run: `case`, the program, then op lines each followed by its `#D` line
